@@ -162,6 +162,32 @@ func runC01(c *Ctx) {
 			c.obRF("R01.2", f, "selects-router", n == 1, "Lookup selects the method's router", "")
 		} else {
 			loops := mapLoops(f, vFieldLoad("rt/middleware.defaultRouter", "routers", nil))
+			if len(loops) == 0 {
+				// the scan runs over a fixed list of methods instead: definitely incomplete when it omits a method the
+				// description can declare an operation under (a router exists for it, it is never asked)
+				for _, sl := range sliceLoops(f, nil) {
+					ad, isLoad := derefLoad(sl.X)
+					g, isG := ad.(*ssa.Global)
+					if !isLoad || !isG {
+						continue
+					}
+					if list, okL := globalConstStrings(g); okL {
+						have := map[string]bool{}
+						for _, m := range list {
+							have[strings.ToUpper(m)] = true
+						}
+						var missing []string
+						for _, m := range []string{"GET", "PUT", "POST", "DELETE", "OPTIONS", "HEAD", "PATCH"} {
+							if !have[m] {
+								missing = append(missing, m)
+							}
+						}
+						if len(missing) > 0 {
+							c.obD("R01.2", sl.Test, "scans-every-declarable-method", false, "OtherMethods asks the router of every method an operation can be declared under (get, put, post, delete, options, head, patch)", "the scan runs over the fixed list "+short(g.String())+", which omits "+strings.Join(missing, ", "))
+						}
+					}
+				}
+			}
 			c.obRF("R01.2", f, "scans-routers", len(loops) == 1, "OtherMethods scans every method's router", "")
 			// the own method is excluded by comparison with the upper-cased method; every other router is probed
 			for _, l := range loops {
@@ -576,6 +602,13 @@ func rulePathValuesDecodedOnce(c *Ctx, rule string) {
 				continue
 			}
 			n++
+			// … and what it hands out is the stored value itself: decoding happened once, in Lookup
+			if elems, isLit := sliceLitElems(r.Results[0]); isLit {
+				for _, e := range elems {
+					okV, bad := allOrigins(e, oFieldLoad(routeParamT, "Value", nil))
+					c.obI(rule, r, "stored-value-handed-out-verbatim", okV, "RouteParams.GetOK returns the stored value as it is (the router decoded it exactly once: a second decoding turns %2541 into A)", "origin "+describeOrigin(bad))
+				}
+			}
 			c.obI(rule, r, "value-read-by-exact-name", guardedBy(r, nil, exact), "RouteParams.GetOK answers 'present' only for an entry whose name is exactly the name asked for (two placeholders whose names differ in letter case keep their own values)", "a 'present' answer is reachable without the comparison entry.Name == name")
 		}
 		c.obRF(rule, g, "getok-can-answer", n >= 1, "GetOK has a 'present' answer", "")
